@@ -11,7 +11,7 @@ from ..rtc import drive_axes, runner
 LEVEL = "exploration"
 PROP = "C13"
 RULE = ("every dimension list of 1-3 dimensions of which 1-2 carry 1 or 2 extra axes (i.e. 2- or 3-axis dimensions), extra extents drawn from "
-        "{1,2,3,4} pairwise different (all 432 such lists) x N in 1..3 x category extents in 1..3 (an evenly spread choice of extent tuples per "
+        "{1,2,3,4} pairwise different (all 432 such lists, plus 8 lists with equal extra extents, where a transposed block stays inside the result) x N in 1..3 x category extents in 1..3 (an evenly spread choice of extent tuples per "
         "list) x dimension data over 0..extent-1 (exhaustive where there are at most `cap` data sets, otherwise a deterministic evenly spread "
         "stride over the exhaustive index range plus two ramps in which every extra-axis position carries different rows; thorough: stride "
         "offset from VERIF_SEED) x both cube types (ccube dims built with speclib.mk, common value rotating over 0..extent-1; xcube dims the same "
@@ -45,7 +45,7 @@ def run(ctx):
             raise core.CheckerBroken("no dimension list with multi-axis dimensions of %s axes was explored" % need)
     runner.report(ctx, mon, totals, belongs, RULE, expect_clauses=EXPECT, exhaustive=not drive_axes.is_sampled(ctx.tier),
                   extra_cov={"dimension_lists_by_axes": lists, "structures": len(drive_axes.structures()),
-                             "exhaustive_part": "all 432 dimension-list structures; dimension data exhaustive for shapes with at most "
+                             "exhaustive_part": "all 432 dimension-list structures with pairwise different extra extents; dimension data exhaustive for shapes with at most "
                                                 "%d data sets; every block of every result" % drive_axes.scopes(ctx.tier)["cap"]})
     ctx.assumptions += ["bounded: holds on the enumerated cube/call scope only (engine C is the bounded stand-in, not a proof)",
                         "oracle is relational by the property's own definition: a block of the library's output against the library's "
